@@ -113,6 +113,10 @@ class C08(CleanBase):
             # some tests call snaps.Skip instead of running (their entries exist from before)
             tests = info["tests"]
             skipped = [t for t in tests if r.chance(1, 3)]
+            if not skipped and len(tests) > 1 and r.chance(4, 5):
+                skipped = [r.choice(tests)]          # most cases have a skipped test ...
+            if len(skipped) == len(tests) and len(tests) > 1:
+                skipped = skipped[1:]                 # ... and a test that runs
             extra_entries = []
             ops = list(setup)
             for t in skipped:
@@ -139,15 +143,15 @@ class C08(CleanBase):
         fss = [r for r in results if r[0] == "fs"]
         cl = [r for r in results if r[0] == "clean"]
         if len(fss) < 2 or not cl:
-            return []
+            return self.skip("guard")
         before, after = fss[0][2], fss[1][2]
         c = cl[0][2]
         skipped = [unhx(kv["test"]) for n, kv in ops if n == "skip"]
         if not skipped:
-            return []
+            return self.skip("no test called a skip wrapper in this case")
         main = hx(b"/S/def/zz_verif_trace_test.snap")
         if not any(n == "match" and kv["api"] == "snap" and kv["h"] == "0" for n, kv in ops):
-            return []
+            return self.skip("guard")
         eb, ea = parse_entries(unhx(before.get(main, "-"))), dict(parse_entries(unhx(after.get(main, "-"))))
         otests = set() if c["otests"] == "~" else set(unhx(x) for x in c["otests"].split(","))
         fails = []
